@@ -176,9 +176,10 @@ func TestC17_Search(t *testing.T) {
 		prevHist := histEntries(h.History())
 		anyResult := false
 		var labels []string
+		var lastArgsQ []string
 		for s := 0; s < nSearch; s++ {
 			var argsQ []string
-			qkind := rapid.SampledFrom([]string{"vocab", "vocab", "vocab", "typo", "recovery", "padded", "split", "rejected-meta", "rejected-blank", "control", "long", "unicode", "repeat", "repeat-recased", "repeat-recased", "question"}).Draw(t, "qkind")
+			qkind := rapid.SampledFrom([]string{"vocab", "vocab", "vocab", "typo", "recovery", "padded", "split", "rejected-meta", "rejected-blank", "control", "long", "unicode", "repeat", "repeat", "repeat-recased", "repeat-recased", "question", "invalid-utf8"}).Draw(t, "qkind")
 			w := rapid.SampledFrom(toks)
 			switch qkind {
 			case "vocab":
@@ -201,6 +202,8 @@ func TestC17_Search(t *testing.T) {
 				argsQ = []string{strings.Repeat(w.Draw(t, "w")+" ", rapid.IntRange(80, 400).Draw(t, "rep"))}
 			case "unicode":
 				argsQ = []string{gen.TextOf(gen.UWord(true), 1, 3).Draw(t, "uq") + " " + w.Draw(t, "w")}
+			case "invalid-utf8": // bytes the validator lets through although they are no UTF-8
+				argsQ = []string{w.Draw(t, "w") + rapid.SampledFrom([]string{"\xe6", " \xff\xfe", "\xc3", " caf\xe9", "\x80"}).Draw(t, "bad-bytes")}
 			case "question":
 				argsQ = []string{"how do I " + w.Draw(t, "w") + rapid.SampledFrom([]string{"?", " ?", "??", "!", " ? ?", "...", "?!"}).Draw(t, "end")}
 			case "repeat-recased": // the previous query in another letter case: a different query, a new entry
@@ -214,8 +217,10 @@ func TestC17_Search(t *testing.T) {
 				} else {
 					argsQ = []string{w.Draw(t, "w")}
 				}
-			default: // repeat the previous query of this history when there is one
-				if len(prevHist) > 0 {
+			default: // repeat the previous query of this history when there is one, exactly as it was typed
+				if len(lastArgsQ) > 0 {
+					argsQ = append([]string{}, lastArgsQ...)
+				} else if len(prevHist) > 0 {
 					argsQ = []string{prevHist[len(prevHist)-1].Query}
 				} else {
 					argsQ = []string{w.Draw(t, "w")}
@@ -387,6 +392,7 @@ func TestC17_Search(t *testing.T) {
 				t.Fatalf("history grew from %d to %d entries for one search; %s", len(prevHist), len(nowHist), ctx)
 			}
 			prevHist = nowHist
+			lastArgsQ = argsQ
 			labels = append(labels, "format:"+f, "q:"+qkind, "db:"+dbKind)
 			if strings.Contains(r.Stdout, "Warning: Search had issues") {
 				labels = append(labels, "recovery-path")
